@@ -1,6 +1,6 @@
 import json, itertools, collections, sys
 from multiprocessing import Pool
-sys.path.insert(0,'/repo')
+sys.path.insert(0, __import__('os').environ.get('SUT', '/repo'))
 from simple_ddl_parser import DDLParser
 # column shapes: (text after name, expected dict)
 SH=[("int",dict(type='int',size=None,nullable=True,default=None)),
